@@ -15,6 +15,8 @@
 #include <qmdnsengine/provider.h>
 #include <qmdnsengine/resolver.h>
 
+#include <QNetworkInterface>
+
 #include <memory>
 
 using namespace QMdnsEngine;
@@ -107,6 +109,21 @@ void engineActor(const std::vector<std::string> &, const std::vector<std::string
             outLine("LOOKUP [" + io::tokOfList(rs, io::tokOfRecord) + "]");
         } else if (w[0] == "HOSTNAME" && w.size() == 2) {
             vt::g_hostname = QString::fromUtf8(io::rawOfHex(w[1]));
+        } else if (w[0] == "DUMPIF" && w.size() == 1) {
+            // the interface table the library will see (QNetworkInterface::allInterfaces)
+            std::string tok;
+            const auto ifs = QNetworkInterface::allInterfaces();
+            for (const QNetworkInterface &ni : ifs) {
+                if (!tok.empty()) tok += ";";
+                std::string it;
+                const auto es = ni.addressEntries();
+                for (const QNetworkAddressEntry &e : es) {
+                    if (!it.empty()) it += ",";
+                    it += io::tokOfAddr(e.ip()) + "/" + std::to_string(e.prefixLength());
+                }
+                tok += it.empty() ? "_" : it;
+            }
+            outLine("IFACES " + (tok.empty() ? std::string("-") : tok));
         } else if (w[0] == "JITTER" && w.size() == 2) {
             vt::g_jitter = std::stoi(w[1]);
         } else if (w[0] == "ADV" && w.size() == 2) {
